@@ -52,7 +52,8 @@ def required(tier):
     cl = [f'species:{s}' for s in ('prefix', 'gapped', 'per-field', 'full', 'single')]
     cl += [f'layout:{x}' for x in ('single', 'assoc1', 'assoc2', 'mapped', 'mem-save')]
     cl += ['phase:same-session-evicted', 'phase:reopen-read', 'phase:reopen-append',
-           'phase:after-sync', 'across:subset-later', 'across:uniform']
+           'phase:after-sync', 'across:subset-later', 'across:uniform', 'phase:append-one-more',
+           'field-set-order:shuffled']
     return {'classes': cl, 'counters': {'trajectories_compared': 300}, 'evaluations': 300}
 
 
@@ -115,7 +116,10 @@ def one_store(rng, workdir: Path, rec, k):
                 if across == 'subset-later':
                     ok = sorted(rng.sample(ok, rng.randint(1, len(ok))))
                 plan[f] = ok
-        for n in extras:
+        order = list(extras)
+        if shuffle_order and j > 0:
+            rng.shuffle(order)          # the same field sets, added in another order
+        for n in order:
             t.add_fields(vf.ALL[n])
             # optional species fields may be unset in the first trajectory too; only if it
             # would carry no species at all do we keep them (a file needs a species list)
@@ -126,13 +130,16 @@ def one_store(rng, workdir: Path, rec, k):
 
     union0: set = set()
     keep_first = rng.random() < 0.4
+    shuffle_order = len(extras) >= 2 and rng.random() < 0.5
 
     trajs = [build(j) for j in range(ntraj)]
+    extra_t = build(ntraj)              # added later, in an append session
     if not keep_first:
         rec.cls('first-trajectory:optional-species-fields-may-be-unset')
     snaps = [trajgen.snapshot(t) for t in trajs]
     small_cache = rng.random() < 0.5
-    cache_mb = max(t.nbytes for t in trajs) * 1.5 / (1024 * 1024) if small_cache else 64
+    cache_mb = max(t.nbytes for t in trajs + [extra_t]) * 1.5 / (1024 * 1024) \
+        if small_cache else 64
 
     def compare_all(st, phase):
         for i, s in enumerate(snaps):
@@ -243,6 +250,33 @@ def one_store(rng, workdir: Path, rec, k):
                 compare_all(st, mode)
             finally:
                 st.close()
+        # ---- append session: read an old item, then add one more trajectory ----------------
+        if layout != 'mapped':
+            extra_snap = trajgen.snapshot(extra_t)
+            st = TrajectoryStore.append(base_file=base, associated_files=list(assoc_paths) or None,
+                                        cache_size_mb=cache_mb)
+            try:
+                _ = st[rng.randrange(ntraj)]
+                try:
+                    idx = st.add(extra_t)
+                except Exception as e:  # noqa: BLE001
+                    raise M('adding a trajectory that fits its field sets raised',
+                            {'phase': 'append session after reading an old item',
+                             'field_set_order_shuffled': shuffle_order,
+                             'error': f'{type(e).__name__}: {str(e)[:200]}', **case})
+                if idx != ntraj:
+                    raise M('add returned wrong index', {'returned': idx, 'expected': ntraj,
+                                                         **case})
+            finally:
+                st.close()
+            snaps.append(extra_snap)
+            st = TrajectoryStore.open(base_file=base, associated_files=list(assoc_paths) or None)
+            try:
+                compare_all(st, 'append-one-more')
+            finally:
+                st.close()
+        if shuffle_order:
+            rec.cls('field-set-order:shuffled')
     finally:
         shutil.rmtree(d, ignore_errors=True)
     rec.cls(f'layout:{layout}', f'species:{shape}', f'across:{across}',
